@@ -184,6 +184,18 @@ Definition bootstrap1_ok (c : mcfg) (r : mround1) (rf : fields1) : bool :=
   ((mc_f c + 1 <=? mfb_votes v ps)%nat &&
    forallb (fun p => negb (snd (q_mfb p)) || (mfb_votes (fst (q_mfb p)) ps <=? mfb_votes v ps)%nat) ps)
   || ((r1_valid_from rf =? 0) && (mc_f c + 1 <=? mfb_votes (-1) ps)%nat).
+(* v1: previous report ending at block pb (pb + 1 within int64), an agreed current block below pb + 1, prices and timestamp agreed *)
+Definition must_decline1 (c : mcfg) (r : mround1) : bool :=
+  match r1d_prev r with
+  | Some (Ok pb) =>
+      let f := mc_f c in
+      let ps := omap' parse1 (omap' fst (r1d_obs r)) in
+      (f + 1 <=? length ps)%nat && (pb + 1 <? 2 ^ 63) &&
+      is_ok (consensus_timestamp (map q_ts ps)) &&
+      is_ok (consensus_price (map q_bm ps) f) && is_ok (consensus_price (map q_bid ps) f) && is_ok (consensus_price (map q_ask ps) f) &&
+      match latest_block (map q_blocks ps) f with Ok cb => bnum cb <? pb + 1 | _ => false end
+  | _ => false
+  end.
 Fixpoint c09_chain1 (c : mcfg) (last : option Z) (rs : list mround1) : bool :=
   match rs with
   | [] => true
@@ -193,7 +205,8 @@ Fixpoint c09_chain1 (c : mcfg) (last : option Z) (rs : list mround1) : bool :=
           match r1d_prev r with Some (Ok pb) => (r1_valid_from rf =? pb + 1) | Some _ => false | None => bootstrap1_ok c r rf end &&
           match last, r1d_prev r with Some e, Some (Ok pb) => if pb =? e then (r1_valid_from rf =? e + 1) else true | _, _ => true end &&
           (r1_valid_from rf <=? bnum (r1_cur rf)) && c09_chain1 c (Some (bnum (r1_cur rf))) rest
-      | _ => c09_chain1 c last rest
+      | Ok (false, _) => c09_chain1 c last rest
+      | _ => negb (must_decline1 c r) && c09_chain1 c last rest
       end
   end.
 
